@@ -375,6 +375,43 @@ def wait_for_dependencies(fn):
             f"  forallb (fun b : bool => b) ({' ++ '.join('(' + x + ')' for x in parts)}).\n")
 
 
+SCHEDULE_STEP = ["if tiered_time in self.next_steps:\n    return tiered_time",
+                 "is_earlier = not self.next_steps or tiered_time < self.next_steps[0]",
+                 "hq.heappush(self.next_steps, tiered_time)",
+                 "if is_earlier:\n    self.newer_step.set()"]
+
+
+def schedule_step(tree):
+    """SimRunner.schedule_step: four statements, translated one by one (membership by ==, the heap as a list whose [0] is the
+    minimum, heappush as adding an element, newer_step.set() as raising the flag)"""
+    cls = [n for n in tree.body if isinstance(n, ast.ClassDef) and n.name == 'SimRunner']
+    if len(cls) != 1: raise Unsupported('class SimRunner not found')
+    fns = [n for n in cls[0].body if isinstance(n, ast.FunctionDef) and n.name == 'schedule_step']
+    if len(fns) != 1: raise Unsupported('SimRunner.schedule_step not found')
+    fn = fns[0]
+    if [a.arg for a in fn.args.args] != ['self', 'tiered_time']: bail(fn, 'signature')
+    body = strip_doc(fn.body)
+    if len(body) != 4: bail(fn, 'body shape')
+    # 1. if tiered_time in self.next_steps: return tiered_time
+    st = body[0]
+    if not (isinstance(st, ast.If) and not st.orelse and len(st.body) == 1 and isinstance(st.body[0], ast.Return)
+            and isinstance(st.test, ast.Compare) and len(st.test.ops) == 1 and isinstance(st.test.ops[0], ast.In) and is_name(st.test.left, 'tiered_time')
+            and is_attr(st.test.comparators[0], 'self', 'next_steps')): bail(st, 'duplicate test')
+    # 2. is_earlier = not self.next_steps or tiered_time < self.next_steps[0]
+    st = body[1]
+    if ast.unparse(st) != SCHEDULE_STEP[1]: bail(st, 'is_earlier')
+    v = st.value
+    if not (isinstance(v, ast.BoolOp) and isinstance(v.op, ast.Or) and len(v.values) == 2): bail(st, 'is_earlier')
+    # 3. heappush, 4. flag
+    if ast.unparse(body[2]) != SCHEDULE_STEP[2]: bail(body[2], 'heappush')
+    if ast.unparse(body[3]) != SCHEDULE_STEP[3]: bail(body[3], 'newer_step')
+    return ("(* SimRunner.schedule_step: the new queue and the new value of the newer_step flag *)\n"
+            "Definition schedule_step (next_steps : list time) (newer_step : bool) (tiered_time : time) : list time * bool :=\n"
+            "  if memT tiered_time next_steps then (next_steps, newer_step) else\n"
+            "  let is_earlier := match heap0 next_steps with None => true | Some h => tlt tiered_time h end in\n"
+            "  (tiered_time :: next_steps, if is_earlier then true else newer_step).\n")
+
+
 def main():
     repo, outdir = sys.argv[1], sys.argv[2]
     tree = ast.parse(open(os.path.join(repo, 'mosaik', 'scheduler.py')).read())
@@ -383,8 +420,9 @@ def main():
         if name not in fns: raise Unsupported(f'function {name} not found')
     ptree = ast.parse(open(os.path.join(repo, 'mosaik', 'progress.py')).read())
     out = ["(* generated by harness/py2coq_sched.py from mosaik/scheduler.py and mosaik/progress.py -- do not edit; regenerated on every run *)",
-           "From Coq Require Import ZArith List Bool Arith.", "Import ListNotations.", "From MV Require Import Time.Spec Sched.GenView.", "Open Scope Z_scope.", "",
-           get_max_advance(fns['get_max_advance']), advance_progress(fns['advance_progress']), progress_class(ptree), wait_for_dependencies(fns['wait_for_dependencies'])]
+           "From Coq Require Import ZArith List Bool Arith.", "Import ListNotations.", "From MV Require Import Time.Spec Sched.Timing Sched.GenView.", "Open Scope Z_scope.", "",
+           get_max_advance(fns['get_max_advance']), advance_progress(fns['advance_progress']), progress_class(ptree), wait_for_dependencies(fns['wait_for_dependencies']),
+           schedule_step(ast.parse(open(os.path.join(repo, 'mosaik', 'simmanager.py')).read()))]
     text = '\n'.join(out)
     path = os.path.join(outdir, 'SchedulerFns.v')
     if not os.path.exists(path) or open(path).read() != text:
